@@ -158,3 +158,5 @@ Definition ts_unnorm (v : f32) : Z :=
   round_ne_u8 (fmul cl (flit 255 1)).
 Definition opacity_u8 (c : Z) (o : f32) : Z := ts_unnorm (fmul (fmul (of_Z c) ts_factor) o).
 Definition opacity_of_byte (k : Z) : f32 := fdiv (of_Z k) (flit 255 1).
+(* clip-path on a clipPath, clip then mask then ...: the target channel is scaled (apply_mask) by one byte per level *)
+Definition scale_chain (c : Z) (ms : list Z) : Z := fold_left scale_u8 ms c.
